@@ -20,10 +20,11 @@ def request_for(src):
     lookups = []
     real = rn.get_binding
 
-    def recording(name, namespace):
+    def recording(name, namespace, *args, **kwargs):
+        # (whatever else a later version of get_binding takes is passed through)
         if id(namespace) in index:
             lookups.append((name, index[id(namespace)]))
-        return real(name, namespace)
+        return real(name, namespace, *args, **kwargs)
     rn.get_binding = recording
     try:
         rn.resolve_names(m)
